@@ -98,8 +98,10 @@ def frame_of(eng, fi, _stack=None):
     analyse(eng, fi.node.body, fr, roots, fi.cls, _stack + [fi.qual])
     c = eng.registry.get(fi.qual)
     if c is not None and c.modifies is not None:
-        # declared frame of a contracted callee (includes ghost state)
+        # declared frame of a contracted callee (includes ghost state) replaces the inferred one:
+        # the callee's body is checked against it (obligations frame::<path>)
         from .contracts import norm_path
+        fr.paths, fr.prefixes = set(), set()
         for p in c.modifies:
             fr.paths.add(norm_path(p))
         for p in c.modifies_prefix:
